@@ -241,5 +241,8 @@ class ClassicallyControlledOperation(raw_types.Operation):
             return None
         if not self._conditions:
             return subop_qasm
+        if not subop_qasm:
+            # Nothing to condition (e.g. a global phase).
+            return subop_qasm
         condition_qasm = " && ".join(protocols.qasm(c, args=args) for c in self._conditions)
         return f'if ({condition_qasm}) {subop_qasm}'
